@@ -251,6 +251,16 @@ class Scenario(apiworld.ApiWorld):
         n0 = len(self.notified)
         before = pubmodel.observed_view(self.at)
         self.net.auto = "accept"
+        if self.gen == 4 and self.mute_gs and not self.console.silent:
+            # the console keeps ignoring group status requests for another 700 s on a network that behaves:
+            # the work-around must keep asking, every 300 s of silence, whatever happened before
+            for t in self.net.conns:
+                t.fail_after = None
+            self.net.resolve_all(True)
+            L.run_until(L.time() + 700.0)
+            v = self.step_check()
+            if v:
+                return v
         self.mute_gs = False
         if self.console.silent:
             # the console answers again: one more loss makes the client ask afresh
@@ -336,7 +346,8 @@ def run(tier, seed, part=None):
     if tier == "quick":
         plans = [({"max_tick": 3, "max_loss": 1, "max_edit": 1, "max_adv": 1, "poll": False}, 6, 0),
                  ({"max_tick": 4, "max_loss": 0, "max_edit": 0, "max_adv": 1, "poll": True}, 6, 0),
-                 ({"max_tick": 1, "max_loss": 2, "max_edit": 1, "max_adv": 0, "poll": False, "max_silent": 1, "max_failopen": 1}, 7, 0)]
+                 ({"max_tick": 1, "max_loss": 2, "max_edit": 1, "max_adv": 0, "poll": False, "max_silent": 1, "max_failopen": 1}, 7, 0),
+                 ({"max_tick": 2, "max_loss": 1, "max_edit": 0, "max_adv": 1, "poll": True, "outages": [400.0]}, 6, 0)]
         cap = 45
     else:
         plans = [({"max_tick": 4, "max_loss": 2, "max_edit": 2, "max_adv": 2, "poll": False, "max_cmd": 1}, 8, 0),
